@@ -1003,11 +1003,118 @@ fn sub_c12_fixed(input: &[u8], st: &mut Stats) -> R {
     Ok(())
 }
 
+/// `huge-runs`: one kind of structural call repeated 65 530 - 135 000 times on a single Builder - a
+/// function collecting that many parameters or blocks, a block that many instructions, a module that
+/// many functions, that many rejected calls in a row - checked against the structural rule after
+/// every call and against the expected module at the end. The rules of C12 carry no counts.
+fn sub_c12_huge(input: &[u8], st: &mut Stats) -> R {
+    let mut cs = Cs::new(input);
+    let n = match cs.below(4) {
+        0 => 65_530 + cs.below(16),
+        1 => 131_066 + cs.below(12),
+        2 => 65_537 + cs.below(5_000),
+        _ => 66_000 + cs.below(69_000),
+    };
+    let pat = cs.below(6);
+    let what = ["function_parameter", "begin_block+ret", "begin_function+end_function", "nop in one block", "rejected ret / begin_block / function_parameter / end_function", "begin_block+ret in a second function"][pat];
+    let f = |clause: &str, k: usize, msg: String| Fail::new(clause, format!("huge:{}", what), format!("{} (pattern `{}` repeated, call #{} of {})", msg, what, k, n));
+    let mut b = Builder::new();
+    let void = b.type_void();
+    let fty = b.type_function(void, vec![void]);
+    let e = |k: usize, r: Result<u32, rspirv::dr::Error>, name: &str| r.map_err(|e| f("structure-enforced", k, format!("{} failed with {:?} although the structure allows it", name, e)));
+    let e0 = |k: usize, r: Result<(), rspirv::dr::Error>, name: &str| r.map_err(|e| f("structure-enforced", k, format!("{} failed with {:?} although the structure allows it", name, e)));
+    if pat == 5 {
+        e(0, no_panic("begin_function", || b.begin_function(void, None, spirv::FunctionControl::NONE, fty))?, "begin_function")?;
+        e0(0, no_panic("end_function", || b.end_function())?, "end_function")?;
+    }
+    if pat != 2 && pat != 4 {
+        e(0, no_panic("begin_function", || b.begin_function(void, None, spirv::FunctionControl::NONE, fty))?, "begin_function")?;
+    }
+    if pat == 3 {
+        e(0, no_panic("begin_block", || b.begin_block(None))?, "begin_block")?;
+    }
+    for k in 1..=n {
+        match pat {
+            0 => {
+                e(k, no_panic("function_parameter", || b.function_parameter(void))?, "function_parameter with a function open")?;
+            }
+            1 | 5 => {
+                e(k, no_panic("begin_block", || b.begin_block(None))?, "begin_block in an open function without a selected block")?;
+                e0(k, no_panic("ret", || b.ret())?, "ret in a selected block")?;
+                if b.selected_block().is_some() {
+                    return Err(f("terminator-ends-block", k, "ret left the block selected".into()));
+                }
+            }
+            2 => {
+                e(k, no_panic("begin_function", || b.begin_function(void, None, spirv::FunctionControl::NONE, fty))?, "begin_function with no function open")?;
+                e0(k, no_panic("end_function", || b.end_function())?, "end_function with a function open")?;
+            }
+            3 => {
+                e0(k, no_panic("nop", || b.nop())?, "nop in a selected block")?;
+            }
+            _ => {
+                let r: Result<(), rspirv::dr::Error> = match k % 4 {
+                    0 => no_panic("ret", || b.ret())?,
+                    1 => no_panic("begin_block", || b.begin_block(None))?.map(|_| ()),
+                    2 => no_panic("function_parameter", || b.function_parameter(void))?.map(|_| ()),
+                    _ => no_panic("end_function", || b.end_function())?,
+                };
+                if r.is_ok() {
+                    return Err(f("structure-enforced", k, format!("{} succeeded although no function is open", ["ret", "begin_block", "function_parameter", "end_function"][k % 4])));
+                }
+            }
+        }
+    }
+    // close what is open; then the rules once more
+    match pat {
+        0 => {
+            e(n, no_panic("begin_block", || b.begin_block(None))?, "begin_block")?;
+            e0(n, no_panic("ret", || b.ret())?, "ret")?;
+            e0(n, no_panic("end_function", || b.end_function())?, "end_function")?;
+        }
+        1 | 5 => e0(n, no_panic("end_function", || b.end_function())?, "end_function")?,
+        3 => {
+            e0(n, no_panic("ret", || b.ret())?, "ret")?;
+            e0(n, no_panic("end_function", || b.end_function())?, "end_function")?;
+        }
+        _ => {}
+    }
+    if no_panic("function_parameter", || b.function_parameter(void))?.is_ok() {
+        return Err(f("structure-enforced", n, "function_parameter succeeded although no function is open".into()));
+    }
+    if no_panic("end_function", || b.end_function())?.is_ok() {
+        return Err(f("structure-enforced", n, "end_function succeeded although no function is open".into()));
+    }
+    let m = no_panic("Builder::module", || b.module())?;
+    let (nf, np, nb, ni): (usize, usize, usize, usize) = (
+        m.functions.len(),
+        m.functions.iter().map(|x| x.parameters.len()).sum(),
+        m.functions.iter().map(|x| x.blocks.len()).sum(),
+        m.functions.iter().flat_map(|x| x.blocks.iter()).map(|x| x.instructions.len()).sum(),
+    );
+    let want = match pat {
+        0 => (1, n, 1, 1),
+        1 => (1, 0, n, n),
+        2 => (n, 0, 0, 0),
+        3 => (1, 0, 1, n + 1),
+        4 => (0, 0, 0, 0),
+        _ => (2, 0, n, n),
+    };
+    if (nf, np, nb, ni) != want {
+        return Err(f("module-shape", n, format!("the module holds (functions, parameters, blocks, block instructions) = {:?}, the accepted calls amount to {:?}", (nf, np, nb, ni), want)));
+    }
+    st.count(&format!("huge_runs_pattern_{}", pat));
+    st.add("builder_calls", n as u64);
+    st.nontrivial(hash_str(&format!("{}#{}", pat, n)));
+    Ok(())
+}
+
 pub const C12_SUBS: &[Sub] = &[
     Sub { name: "fixed-histories", f: sub_c12_fixed },
     Sub { name: "histories", f: sub_c12_histories },
     Sub { name: "long-runs", f: sub_c12_long },
     Sub { name: "named-histories", f: sub_c12_named },
+    Sub { name: "huge-runs", f: sub_c12_huge },
 ];
 
 pub fn c12_run(ctx: &Ctx) {
@@ -1016,6 +1123,7 @@ pub fn c12_run(ctx: &Ctx) {
     drive_random(ctx, &C12_SUBS[1], ctx.n(30_000, 15_000_000), 1500);
     drive_random(ctx, &C12_SUBS[2], ctx.n(250, 100_000), 24_000);
     drive_random(ctx, &C12_SUBS[3], ctx.n(15_000, 7_000_000), 1500);
+    drive_random_costly(ctx, &C12_SUBS[4], ctx.n(24, 6_000), 64);
     if !ctx.quick() && !ctx.failed() {
         crate::fuzzing::drive_fuzz(ctx, "builder", 200_000);
     }
@@ -1282,11 +1390,112 @@ fn sub_c13_type_sweep(input: &[u8], st: &mut Stats) -> R {
     Ok(())
 }
 
+/// `referenced-types`: a type requested implicitly, then referred to by another instruction - each
+/// annotation method (decorate, member_decorate, decorate_id, decorate_string) with EVERY declared
+/// Decoration naming the type as target, or a debug name, or a variable / constant of that type - and
+/// then requested again with the same operands: the earlier id comes back and nothing is added,
+/// whatever else in the module mentions that id.
+fn c13_ref_methods() -> Vec<&'static str> {
+    vec!["decorate", "member_decorate", "decorate_id", "decorate_string", "member_decorate_string", "name", "member_name", "variable", "constant_null", "undef"]
+}
+fn sub_c13_referenced(input: &[u8], st: &mut Stats) -> R {
+    let i = idx(input) as usize;
+    let p = pools();
+    let g = golden();
+    let decos: Vec<u32> = g.enums.get("Decoration").map(|e| e.value_set.iter().copied().collect()).unwrap_or_default();
+    let refs = c13_ref_methods();
+    let per_type = decos.len() * 5 + 5;
+    let Some(mm) = p.types.get(i / per_type).copied() else { return Ok(()) };
+    let r = i % per_type;
+    let (rname, deco) = if r < decos.len() * 5 { (refs[r / decos.len()], Some(decos[r % decos.len()])) } else { (refs[5 + r - decos.len() * 5], None) };
+    let rm = method(rname);
+    if is_absent(rm) {
+        st.count("referenced_types_skipped");
+        return Ok(());
+    }
+    let stream = crate::sweep::stream_for(i as u64 ^ 0xc13, 256);
+    let mut it = Interp::new();
+    for _ in 0..4 {
+        it.alloc_id()?;
+    }
+    let env = it.env.clone();
+    let asked = std::cell::Cell::new(false);
+    let mut none = || -> u32 {
+        asked.set(true);
+        0
+    };
+    let mut planned = None;
+    for tries in 0..40 {
+        let mut c2 = Cs::new(&stream[tries..]);
+        asked.set(false);
+        match plan_call(&mut c2, mm, &env, &mut none) {
+            Some(p) if p.explicit_id.is_none() && !asked.get() => {
+                planned = Some(p);
+                break;
+            }
+            _ => {}
+        }
+    }
+    let Some(planned) = planned else {
+        st.count("referenced_types_skipped");
+        return Ok(());
+    };
+    it.call_with(mm, planned.args.clone(), None)?;
+    let Some(t) = it.model.types_global_values.last().and_then(|x| x.result_id) else {
+        st.count("referenced_types_skipped");
+        return Ok(());
+    };
+    // the referring call: planned normally, then its first id argument (target / result type) is the type
+    let mut c3 = Cs::new(&stream[64..]);
+    let mut next = it.lo + it.slack + 1000;
+    let mut fresh = || {
+        next += 1;
+        next
+    };
+    let Some(mut rp) = plan_call(&mut c3, rm, &it.env.clone(), &mut fresh) else {
+        st.count("referenced_types_skipped");
+        return Ok(());
+    };
+    let mut first = true;
+    for a in rp.args.iter_mut() {
+        match a {
+            ArgVal::Word(x) if first => {
+                *x = t;
+                first = false;
+            }
+            ArgVal::Enum("Decoration", v) => {
+                if let Some(d) = deco {
+                    *v = d;
+                }
+            }
+            _ => {}
+        }
+    }
+    if rp.explicit_id.is_some() {
+        st.count("referenced_types_skipped");
+        return Ok(());
+    }
+    let before = it.model.types_global_values.len();
+    it.call_with(rm, rp.args.clone(), None)?;
+    let added = it.model.types_global_values.len() - before;
+    // the same request again
+    it.call_with(mm, planned.args.clone(), None)?;
+    let after = it.model.types_global_values.len() - before - added;
+    if after != 0 {
+        return Err(Fail::new("type-dedup", format!("{}:after-{}", mm.mi.name, rname), format!("the repeated request added {} declaration(s)", after)).with_decoded(it.render()));
+    }
+    it.finish()?;
+    st.set_insert("referenced_type_methods", mm.mi.name);
+    st.nontrivial(hash_str(&format!("{}#{}#{:?}", mm.mi.name, rname, deco)));
+    Ok(())
+}
+
 pub const C13_SUBS: &[Sub] = &[
     Sub { name: "type-sweep", f: sub_c13_type_sweep },
     Sub { name: "histories", f: sub_c13_histories },
     Sub { name: "continued-histories", f: sub_c13_continued },
     Sub { name: "long-type-runs", f: sub_c13_long },
+    Sub { name: "referenced-types", f: sub_c13_referenced },
 ];
 
 pub fn c13_run(ctx: &Ctx) {
@@ -1295,6 +1504,10 @@ pub fn c13_run(ctx: &Ctx) {
     drive_random(ctx, &C13_SUBS[1], ctx.n(30_000, 15_000_000), 1500);
     drive_random(ctx, &C13_SUBS[2], ctx.n(10_000, 5_000_000), 1500);
     drive_random(ctx, &C13_SUBS[3], ctx.n(150, 60_000), 12_000);
+    {
+        let nd = golden().enums.get("Decoration").map(|e| e.value_set.len()).unwrap_or(0);
+        drive_enum(ctx, &C13_SUBS[4], (pools().types.len() * (nd * 5 + 5)) as u64);
+    }
     if !ctx.quick() && !ctx.failed() {
         crate::fuzzing::drive_fuzz(ctx, "builder", 200000);
     }
